@@ -8,24 +8,31 @@ READ = 'regions/io/ds9/read.py::'
 FRAMES = ('icrs', 'fk5', 'j2000', 'fk4', 'b1950', 'galactic', 'ecliptic')
 
 
-def tok(B, form):
-    """(token text, the numbers it is made of)"""
-    v, a, b, c = B.real('v'), B.real('a'), B.real('b'), B.real('c')
+def tok(B, form, hours=True):
+    """(token text, the numbers it is made of).  Sexagesimal notation: the first two fields are integer numerals, the third has a
+    decimal point; fields are within the ranges astropy's Angle accepts (minutes, seconds <= 60; hours <= 24 where the token is in
+    hours) - the DS9 convention says nothing about malformed fields, which Angle refuses with a ValueError"""
+    v, c = B.real('v'), B.real('c')
+    a, b = B.int('a'), B.int('b')
     B.assume(a >= 0)
     B.assume(b >= 0)
     B.assume(c >= 0)
+    if hours or form == 'hms':
+        B.assume(a <= 24)
+    B.assume(b <= 60)
+    B.assume(c <= 60)
     if form == 'bare':
         return N(v), (v,)
     if form in ('i', 'd', 'r', 'p', '"', "'"):
         return N(v) + form, (v,)
     if form == ':':
-        return N(a) + ':' + N(b) + ':' + N(c), (a, b, c)
+        return N(a, 0) + ':' + N(b, 0) + ':' + N(c, 1), (a, b, c)
     if form == '-:':
-        return '-' + N(a) + ':' + N(b) + ':' + N(c), (a, b, c)
+        return '-' + N(a, 0) + ':' + N(b, 0) + ':' + N(c, 1), (a, b, c)
     if form == 'hms':
-        return N(a) + 'h' + N(b) + 'm' + N(c) + 's', (a, b, c)
+        return N(a, 0) + 'h' + N(b, 0) + 'm' + N(c, 1) + 's', (a, b, c)
     if form == 'dms':
-        return N(a) + 'd' + N(b) + 'm' + N(c) + 's', (a, b, c)
+        return N(a, 0) + 'd' + N(b, 0) + 'm' + N(c, 1) + 's', (a, b, c)
     raise ValueError(form)
 
 
@@ -113,7 +120,7 @@ class ds9_sky_position_token:
              if fm in (':', '-:') or (fr == 'fk5' and i < 2)}
 
     def setup(B, form='bare', frame='fk5', index=0):
-        t, nums = tok(B, form)
+        t, nums = tok(B, form, hours=(index % 2 == 0 and frame not in ('galactic', 'ecliptic')))
         return dict(param_str=t, frame=frame, index=index, nums=nums, form=form)
     raises = {'DS9ParserError': lambda form: form in ('i', 'p')}
     post = {'value_per_ds9_conventions': lambda form, nums, frame, index, result:
@@ -178,7 +185,7 @@ def _parse_two_globals(first, second):
     return _parse_raw_data('global ' + first + '\nglobal ' + second + '\nimage\ncircle(1,2,3)')
 
 
-@contract(READ + '_parse_raw_data', props=['C10'])
+@contract(READ + '_parse_raw_data', props=['C10', 'C13'])
 class ds9_successive_global_lines:
     """successive global lines accumulate and a later line overrides the keys it repeats"""
     cases = {'override': {'first': 'color=green width=1', 'second': 'color=blue'},
@@ -198,7 +205,7 @@ class ds9_successive_global_lines:
     }
 
 
-@contract(READ + '_parse_metadata', props=['C10'])
+@contract(READ + '_parse_metadata', props=['C10', 'C13'])
 class ds9_property_names_are_case_insensitive:
     """property names of a region or global line are recognised in any case; the values keep theirs"""
     cases = {'lower': {'text': 'color=Red include=0 text={Ab c}'}, 'upper': {'text': 'COLOR=Red INCLUDE=0 TEXT={Ab c}'},
